@@ -11,7 +11,7 @@ confirm, checks, result, final = {}, {}, {}, {}
 for lf in logs:
     for line in open(lf, errors="replace"):
         m = re.match(r"CONFIRM (\S+) demo_without_patch=(\S+) demo_with_patch=(\S+) suite_with_patch=(\S+)", line)
-        if m:
+        if m and m.group(2) != "earlier":
             c = confirm.setdefault(m.group(1), {})
             c["demo_without_patch"], c["demo_with_patch"] = m.group(2), m.group(3)
             if m.group(4) != "skipped" or "suite_with_patch" not in c:
